@@ -149,6 +149,9 @@ func runC01(c *vh.Ctx) {
 	pairs = append(pairs, c01Concat(c)...)
 	pairs = append(pairs, c01Shortcuts()...)
 	pairs = append(pairs, c01CallFrames(c)...)
+	pairs = append(pairs, c01SignOfZero(c)...)
+	pairs = append(pairs, c01LongRuns(c)...)
+	c01Reuse(c)
 	nDirected := len(pairs)
 	rnd := c01RandomPairs(c, c.N(1200, 12000))
 	pairs = append(pairs, rnd...)
